@@ -22,7 +22,8 @@ fn expr_hb(e: &BodyExpr, base: i32, cap_hb: i32, memo_hb: i32) -> i32 {
     match e {
         BodyExpr::Outer(_) => cap_hb.max(base + 1),
         BodyExpr::Const(_) | BodyExpr::NewVar { .. } => base + 1,
-        BodyExpr::Map(e, _) | BodyExpr::MapVia(e, _, _) => expr_hb(e, base, cap_hb, memo_hb).max(base) + 1,
+        BodyExpr::Map(e, _) | BodyExpr::MapVia(e, _, _) | BodyExpr::WithOld(e, _) => expr_hb(e, base, cap_hb, memo_hb).max(base) + 1,
+        BodyExpr::Ref(e, _) => expr_hb(e, base, cap_hb, memo_hb).max(base) + 2,
         BodyExpr::Map2(a, b, _) => expr_hb(a, base, cap_hb, memo_hb).max(expr_hb(b, base, cap_hb, memo_hb)).max(base) + 1,
         BodyExpr::Fold(es, _) => es.iter().map(|e| expr_hb(e, base, cap_hb, memo_hb)).max().unwrap_or(0).max(base) + 1,
         BodyExpr::Bind(e, b) => {
@@ -90,7 +91,7 @@ pub fn new_bind(w: &Rc<World>, lhs: usize, body: &BodySpec) {
         w.memos.borrow().iter().map(|m| nodes[m.src].hb + 1).max().unwrap_or(0)
     };
     let hb = body_hb(body, lhs_hb + 1, cap_hb, memo_hb);
-    if hb > w.max_height {
+    if hb > w.max_height.get() {
         return w.log(Ev::Act { ctx: w.cur_ctx(), act: Act::Skipped("height") });
     }
     let Some(NodeH::I(lhs_incr)) = w.node_h(l) else { return };
@@ -235,6 +236,30 @@ fn build(cx: &Cx, e: &BodyExpr) -> (Incr<i64>, Hid) {
             if cx.export {
                 w.last_exported.set(Some(hid));
             }
+            (n, hid)
+        }
+        BodyExpr::Ref(inner, proj) => {
+            let (ie, he) = build(cx, inner);
+            let hid1 = w.next_hid();
+            let mut lg = logged(w, hid1, vec![]);
+            let n1 = ie.map(move |x: &i64| {
+                let r = (x.rem_euclid(3), x.div_euclid(2));
+                lg(vec![MV::I(*x)], r.mv());
+                r
+            });
+            w.register(NodeH::P(n1.clone()), RK::MapIP { src: he }, Some(cx.scope), cx.export, false, cx.hb);
+            let n2 = if *proj % 2 == 0 { n1.map_ref(|p: &Pair| &p.0) } else { n1.map_ref(|p: &Pair| &p.1) };
+            let hid2 = w.register(NodeH::I(n2.clone()), RK::MapRef { src: hid1, proj: *proj % 2 }, Some(cx.scope), cx.export, false, cx.hb);
+            if cx.export {
+                w.last_exported.set(Some(hid2));
+            }
+            (n2, hid2)
+        }
+        BodyExpr::WithOld(inner, f) => {
+            let (ie, he) = build(cx, inner);
+            let hid = w.next_hid();
+            let n = ie.map_with_old(crate::closures::with_old_fn(w, hid, *f));
+            w.register(NodeH::I(n.clone()), RK::MapWithOld { src: he, f: *f }, Some(cx.scope), cx.export, false, cx.hb);
             (n, hid)
         }
         BodyExpr::Map2(a, b, f) => {
